@@ -413,7 +413,6 @@ func init() {
 		ID:       "C32",
 		Title:    "Push subscribers receive the sequence log in order without gaps",
 		Packages: []string{"blockchain"},
-		Hold:     "rule R32d fires (task marked running only inside its goroutine → a second runner can be started); reproduction and fix in progress",
 		Explanation: "Decides R32a-R32d: in the task goroutine the delivered sequence is persisted and the in-memory cursor advanced only after PostData returned nil; the next batch starts at cursor+1 and is bounded by the distance to the latest sequence; three consecutive failures persist the not-active status and remove the task under the lock; " +
 			"the cursor is initialised from the persisted last-pushed sequence and a task is marked running before its goroutine exists (single runner).",
 		NotCovered: "endpoint behaviour and retry timing (V / schedules).",
